@@ -3,6 +3,7 @@
 package val
 
 import (
+	"bytes"
 	"math"
 	"math/rand"
 	"strings"
@@ -80,7 +81,19 @@ func (g *Gen) u64() uint64 {
 	return g.R.Uint64() >> uint(g.R.Intn(64))
 }
 
+// longLen draws a payload length at a length-prefix boundary (1|2 bytes at 127/128, the
+// neighbourhood of 255/256/511/512, rarely 2|3 bytes at 16383/16384).
+func (g *Gen) longLen() int {
+	if g.R.Intn(8) == 0 {
+		return []int{16383, 16384}[g.R.Intn(2)]
+	}
+	return []int{253, 254, 255, 256, 257, 511, 512, 767}[g.R.Intn(8)]
+}
+
 func (g *Gen) Str() string {
+	if g.LongLists > 0 && g.R.Intn(100) < 2 {
+		return strings.Repeat("s", g.longLen())
+	}
 	if g.R.Intn(100) < 80 {
 		return strpool[g.R.Intn(len(strpool))]
 	}
@@ -93,6 +106,9 @@ func (g *Gen) Str() string {
 }
 
 func (g *Gen) BytesV() []byte {
+	if g.LongLists > 0 && g.R.Intn(100) < 2 {
+		return bytes.Repeat([]byte{0x80}, g.longLen())
+	}
 	if g.R.Intn(100) < 70 {
 		return append([]byte(nil), bytespool[g.R.Intn(len(bytespool))]...)
 	}
